@@ -336,9 +336,42 @@ def suite_cli(seed, tier):
             args += ["--save-centroids"] if c["save_centroids"] else ["--no-save-centroids"]
             args += ["--packed-input"] if c["packed"] else ["--unpacked-input"]
             args += ["--copy"] if o["copy"] else ["--no-copy"]
-            rc, txt, exc = invoke(args)
+            # every option must reach the API unchanged: spy on the function the command calls
+            import bblean.multiround as mrmod
+            seen_kw = {}
+            real_run = mrmod.run_multiround_bitbirch
+
+            def spy_run(*a, **kw):
+                seen_kw.update(kw)
+                return real_run(*a, **kw)
+            procs_i = rng.choice([1, 1, 2, 3])
+            procs_m = rng.randint(1, procs_i)       # the API requires mid <= initial
+            mtpp = rng.choice([1, 2])
+            args[args.index("--ps") + 1] = str(procs_i)
+            args += ["--mid-ps", str(procs_m), "--max-tasks-per-process", str(mtpp)]
+            args += ["--fork"] if rng.random() < 0.5 else ["--no-fork"]
+            mrmod.run_multiround_bitbirch = spy_run
+            try:
+                rc, txt, exc = invoke(args)
+            finally:
+                mrmod.run_multiround_bitbirch = real_run
             cases += 1
             stats["multiround"] += 1
+            want = {"n_features": case["nf"], "input_is_packed": c["packed"], "initial_merge_criterion": c["init"],
+                    "midsection_merge_criterion": c["mid"], "branching_factor": c["bf"], "threshold": c["thr"],
+                    "midsection_threshold_change": c["change"], "tolerance": c["tol"],
+                    "save_centroids": c["save_centroids"], "bin_size": c["bin"],
+                    "refinement_before_midsection": c["refine"], "num_midsection_rounds": c["rounds"],
+                    "split_largest_after_each_midsection_round": c["split_after"], "cleanup": True,
+                    "num_initial_processes": procs_i, "num_midsection_processes": procs_m,
+                    "max_tasks_per_process": mtpp,
+                    "input_files": [Path(q) for q in sorted(ind.glob("*.npy"))], "out_dir": tmp / "out"}
+            if rc == 0 or seen_kw:
+                for k, v in want.items():
+                    got = seen_kw.get(k, "<not passed>")
+                    if got != v and not (isinstance(v, Path) and Path(str(got)).resolve() == v.resolve()):
+                        r.bad.append({"suite": "cli", "what": f"multiround: option '{k}' reached the API as "
+                                      f"{str(got)[:80]!r} instead of {str(v)[:80]!r}", "cfg": c})
             if rc != 0:
                 r.bad.append({"suite": "cli", "what": f"multiround: command failed (rc={rc}): {exc!r}"[:300],
                               "cfg": c})
